@@ -186,12 +186,14 @@ class Spec:
         st.ended = set()    # streams the peer ended (closed for receiving) that still have outstanding bytes
         st.nstreams = 0
         st.dead = False
+        st.stuck = {}       # sid -> kind of the action after which the stream first had nothing of its own outstanding and a window <= 0
         return [("start", st)]
 
     def fingerprint(self, st):
         return fingerprint(st.h.conn, st.Ac, st.acked_iws, tuple(st.pending), tuple(sorted(st.As.items())),
                            tuple(sorted(st.out.items())), tuple(sorted(st.credit.items())), st.auto,
-                           tuple(sorted(st.reset)), tuple(sorted(st.ended)), st.nstreams, st.dead)
+                           tuple(sorted(st.reset)), tuple(sorted(st.ended)), st.nstreams, st.dead,
+                           tuple(sorted(st.stuck.items())))
 
     def actions(self, st):
         if st.dead:
@@ -354,6 +356,14 @@ class Spec:
             out = "rxack"
         else:
             raise ValueError(lab)
+        # ---- bookkeeping for signatures: since when has each stream been shut with nothing of its own outstanding
+        for sid, a in st.As.items():
+            if st.acked_iws > 0 and a <= 0 and sid not in st.ended and not st.out.get(sid):
+                st.stuck.setdefault(sid, parts[0])
+            else:
+                st.stuck.pop(sid, None)
+        for sid in [x for x in st.stuck if x not in st.As]:
+            del st.stuck[sid]
         # ---- no deadlock: when nothing is outstanding every positive-maximum window is open
         if not any(st.out.values()):
             if st.Ac <= 0:
@@ -362,7 +372,7 @@ class Spec:
             for sid, a in st.As.items():
                 if st.acked_iws > 0 and a <= 0 and sid not in st.ended:
                     bad("deadlock", "after %s nothing is unacknowledged but stream %d advertises %d (maximum %d)" % (
-                        lab, sid, a, st.acked_iws), window="stream", after=parts[0])
+                        lab, sid, a, st.acked_iws), window="stream", after=parts[0], stuck_since=st.stuck.get(sid, parts[0]))
         if viols:
             st.dead = True
         return Step(out, viols)
